@@ -42,6 +42,21 @@ def run(run, ix, tier):
     run.rule('B-R5', floor=7, desc='directed intermediates in mpf_pow_int')
     kernel_obligations(run, ix, ['mpf_pow_int'], single=False, rule_single=None)
     check_mode_tables(run, ix)
+    # the operator x ** n hands the Python int itself to mpf_pow_int (an exponent converted with a
+    # precision would be a different exponent)
+    from .kernel_rules import check_exact_operand_conversion
+    run.rule('B-R3x', floor=8, desc='int/float operands of the operators are converted exactly')
+    check_exact_operand_conversion(run, ix, 'B-R3x')
+    pw = [g for g in ix.generated if g.qualname == '_mpf.__pow__']
+    if not pw:
+        raise AnalysisError('generated _mpf.__pow__ not found')
+    calls = [x for x in ast.walk(pw[0].node) if isinstance(x, ast.Call) and norm(x.func) == 'mpf_pow_int']
+    if calls and all([norm(a) for a in c.args] == ['sval', 'other', 'prec', 'rounding'] for c in calls):
+        run.ok('B-R3x', '_mpf.__pow__: mpf_pow_int(sval, other, prec, rounding) on the int itself')
+    else:
+        run.fail(Finding('B-R3x', 'mpmath/ctx_mp_python.py', '_mpf.__pow__', 'int branch of __pow__',
+                         'an int exponent does not reach mpf_pow_int(sval, other, prec, rounding) unchanged: '
+                         'integer powers are no longer computed by the directed integer-power kernel'))
     f = ix.func(LIBMPF, 'mpf_pow_int')
     sname, nname, pname, rname = f.params[:4]
     assigns = {}
